@@ -79,7 +79,8 @@ ASSUMPTIONS = [
 ]
 
 FAMILIES = ["1d_int", "1d_float", "1d_adaptive", "1d_gapped", "2d_fixed", "2d_adaptive", "2d_gapped_axis", "3d_fixed",
-            "1d_int32", "1d_gapped_int", "1d_float_no_missed", "2d_no_missed", "2d_fortran", "2d_thin"]
+            "1d_int32", "1d_gapped_int", "1d_float_no_missed", "2d_no_missed", "2d_fortran", "2d_thin",
+            "1d_adaptive_unborn", "2d_adaptive_unborn"]
 VALID = ["fill", "fill", "fill_w", "fill_n", "fill_n", "fill_n_w", "iadd_copy", "imul", "idiv", "merge", "set_dtype",
          "normalize", "fill_far", "isub_half", "iadd_float_copy", "isub_small_int", "fill_heavy", "iadd_batch_built",
          "iadd_batch_built", "fill_a_derived", "fill_a_derived", "fill_w200", "fill_w200"]
@@ -125,6 +126,16 @@ def make_node(cfg):
         h = Histogram1D(FixedWidthBinning(bin_width=0.0009765625, bin_count=5000, bin_times_min=0), dtype=np.float64)
     elif fam == "3d_wide":
         h = HistogramND([FixedWidthBinning(bin_width=0.25, bin_count=18, bin_times_min=0) for _ in range(3)])
+    elif fam in ("1d_adaptive_unborn", "2d_adaptive_unborn"):
+        # adaptive, no bins yet - and somebody has already looked at the (empty) bins
+        if fam.startswith("1d"):
+            h = Histogram1D(FixedWidthBinning(bin_width=0.5, bin_count=0, adaptive=True))
+        else:
+            h = Histogram2D([FixedWidthBinning(bin_width=1.0, bin_count=0, adaptive=True),
+                             FixedWidthBinning(bin_width=2.0, bin_count=0, adaptive=True)])
+        _ = h.bins, h.shape
+        if h.ndim == 1:
+            _ = h.bin_left_edges
     elif fam == "1d_adaptive":
         h = Histogram1D(FixedWidthBinning(bin_width=0.5, bin_count=4, bin_times_min=0, adaptive=True))
     elif fam == "1d_gapped":
@@ -216,6 +227,8 @@ def apply_valid(h, kind, arg):
         return None
     if kind == "fill_a_derived":
         # no operation on the node at all: something derived from it is filled (the caller checks the node)
+        if any(b.bin_count == 0 for b in h.binnings):
+            return NotImplemented
         how = ["copy", "T", "projection", "slice", "mul"][arg % 5]
         if how == "T":
             if type(h).__name__ != "Histogram2D":
